@@ -76,6 +76,7 @@ class Voc:
         self.subset = F("subset", V, V, B)
         self.disjoint = F("disjoint", V, V, B)
         self.sk_dis = F("sk_dis", V, V, V)
+        self.sany = F("sany", V, V)               # some member of a non-empty set
         # dicts
         self.dhas, self.dget = F("dhas", V, V, B), F("dget", V, V, V)
         self.dset, self.ddel = F("dset", V, V, V, V), F("ddel", V, V, V)
@@ -226,6 +227,7 @@ class Voc:
             self.card(self.sempty) == 0,
             FA([s], self.card(s) >= 0, patterns=[self.card(s)]),
             FA([s, x], z3.Implies(self.has(s, x), self.card(s) > 0), patterns=[self.has(s, x)]),
+            FA([s], z3.Implies(self.card(s) > 0, self.has(s, self.sany(s))), patterns=[self.card(s)]),
             FA([s, e, x], self.has(self.sadd(s, e), x) == z3.Or(self.has(s, x), x == e), patterns=[self.has(self.sadd(s, e), x)]),
             FA([s, e], z3.And(self.has(self.sadd(s, e), e),
                               self.card(self.sadd(s, e)) == z3.If(self.has(s, e), self.card(s), self.card(s) + 1)),
